@@ -100,8 +100,10 @@ pub fn generate(seed: u64, tier: Tier) -> History {
     };
     // now and then a library large enough for the result limits (100 search hits) and rank ties to matter
     let big_library = swarm.chance(1, 150);
-    let n_notes = if big_library { swarm.range(40, 130) } else { swarm.range(1, max_notes) };
-    let n_future = swarm.range(0, 2);
+    // one run in 25 starts on an empty library (every note arrives through didChange)
+    let empty_start = !big_library && swarm.chance(1, 25);
+    let n_notes = if big_library { swarm.range(40, 130) } else if empty_start { 0 } else { swarm.range(1, max_notes) };
+    let n_future = if empty_start { swarm.range(2, 4) } else { swarm.range(0, 2) };
     let with_dirs = swarm.chance(1, 3);
     let refs_ext = format!("{}{}", if swarm.chance(1, 4) { ".md" } else { "" }, *swarm.pick(&["", "", "", "|helix", "|models", "|helix+models"]));
     let marathon = swarm.chance(1, if tier == Tier::Thorough { 40 } else { 300 });
@@ -191,7 +193,13 @@ pub fn generate(seed: u64, tier: Tier) -> History {
         // pick a key: mostly existing, sometimes a future one (new file)
         let existing: Vec<String> = docs.keys().cloned().collect();
         let future: Vec<String> = all_keys.iter().filter(|k| !docs.contains_key(*k)).cloned().collect();
-        let (key, is_new) = if !future.is_empty() && work.chance(1, 6) { (work.pick(&future).clone(), true) } else { (work.pick(&existing).clone(), false) };
+        let (key, is_new) = if !future.is_empty() && (existing.is_empty() || work.chance(1, 6)) {
+            (work.pick(&future).clone(), true)
+        } else if !existing.is_empty() {
+            (work.pick(&existing).clone(), false)
+        } else {
+            break;
+        };
         let class: String;
         let mut g = Gen { rng: &mut work, cfg: &cfg };
         if is_new {
